@@ -349,13 +349,20 @@ func runFault(t *faultTask) *faultResult {
 		tableFaultOnly := len(t.Faults) > 0
 		for _, f := range t.Faults {
 			k := vstor.Kind(f.Kind)
+			if storage.FileType(f.Type) == storage.TypeJournal && (vstor.Mode(f.Mode) == vstor.ModeFail || vstor.Mode(f.Mode) == vstor.ModeAfter) && (k == vstor.KCreate || k == vstor.KWrite || k == vstor.KSync) {
+				// the same after a failed journal creation, write or sync: the write fails, later ones
+				// work again, and nothing is left behind (manifest faults are different: a failed
+				// manifest append poisons the manifest writer, commits are retried for ever and the
+				// background work never settles)
+				continue
+			}
 			if storage.FileType(f.Type) != storage.TypeTable || vstor.Mode(f.Mode) != vstor.ModeFail || (k != vstor.KCreate && k != vstor.KWrite && k != vstor.KSync) {
 				tableFaultOnly = false
 			}
 		}
 		if tableFaultOnly && !t.Probe {
 			phase = "residue"
-			w.CheckResidue("after a failed table creation/write/sync and 120 virtual seconds of settling")
+			w.CheckResidue("after a failed table or journal creation/write/sync and 120 virtual seconds of settling")
 			if w.Failed() {
 				res.Viol = append(res.Viol, w.Viol...)
 				return
